@@ -141,3 +141,55 @@ package mcp
 //@ func Client.GetState
 //@   pure
 //@   ensures[C16 reports-the-state] result == c.state
+
+// ---------------------------------------------------------------------------
+// stdio_client.go — C16 (same state machine over atomic.Bool / atomic.Value)
+
+//@ pred stdioStateIs(c *StdioClient, s State) = istype(c.state, State) && c.state.(State) == s
+//@
+//@ type StdioClient
+//@   private[C16] initialized, state writers Initialize, Close, setState
+//@   invariant[C16 initialized-iff-state-initialized] self.initialized <==> stdioStateIs(self, StateInitialized)
+//@   invariant[C16 state-cell-holds-a-state] isnil(self.state) || istype(self.state, State)
+//@
+//@ func stdioClientTransport.sendRequest
+//@   trusted
+//@   modifies *
+//@   ensures netops == old(netops) + 1
+//@ func stdioClientTransport.sendNotification
+//@   trusted
+//@   modifies *
+//@   ensures netops == old(netops) + 1
+//@ func stdioClientTransport.close
+//@   trusted
+//@   modifies *
+//@   ensures netops == old(netops)
+//@
+//@ func StdioClient.setState
+//@   helper
+//@   inline
+//@ func StdioClient.Initialize
+//@   ensures[C16 second-handshake-refused-without-network] old(c.initialized) ==> ret1 != nil && ret == nil && netops == old(netops) && c.initialized
+//@   ensures[C16 failed-handshake-leaves-client-uninitialized] !old(c.initialized) && ret1 != nil ==> !c.initialized && stdioStateIs(c, StateDisconnected)
+//@   ensures[C16 successful-handshake-initializes] ret1 == nil ==> c.initialized && stdioStateIs(c, StateInitialized)
+//@ func StdioClient.Close
+//@   ensures[C16 uninitialized-after-close] c.transport != nil ==> !c.initialized && stdioStateIs(c, StateDisconnected)
+//@ func StdioClient.GetState
+//@   pure
+//@   ensures[C16 reports-the-state] istype(c.state, State) ==> result == c.state.(State)
+//@   ensures[C16 disconnected-when-never-set] isnil(c.state) ==> result == StateDisconnected
+//@   sweep[C16] typeassert
+//@ func StdioClient.ListTools
+//@   ensures[C16 no-operation-before-handshake] !old(c.initialized) ==> ret1 != nil && ret == nil && netops == old(netops)
+//@ func StdioClient.CallTool
+//@   ensures[C16 no-operation-before-handshake] !old(c.initialized) ==> ret1 != nil && ret == nil && netops == old(netops)
+//@ func StdioClient.ListPrompts
+//@   ensures[C16 no-operation-before-handshake] !old(c.initialized) ==> ret1 != nil && ret == nil && netops == old(netops)
+//@ func StdioClient.GetPrompt
+//@   ensures[C16 no-operation-before-handshake] !old(c.initialized) ==> ret1 != nil && ret == nil && netops == old(netops)
+//@ func StdioClient.ListResources
+//@   ensures[C16 no-operation-before-handshake] !old(c.initialized) ==> ret1 != nil && ret == nil && netops == old(netops)
+//@ func StdioClient.ReadResource
+//@   ensures[C16 no-operation-before-handshake] !old(c.initialized) ==> ret1 != nil && ret == nil && netops == old(netops)
+//@ func StdioClient.SendRootsListChangedNotification
+//@   ensures[C16 no-operation-before-handshake] !old(c.initialized) ==> ret != nil && netops == old(netops)
